@@ -68,3 +68,31 @@ Example C02_class_text_example :
        ++ [NL] ++ RestDoc.TAB ++ s2l ":cvar as_numpy: Convert to numpy ndarrays"
   /\ ClassFmt.parse_class (ClassFmt.emit_class doc ps) = (doc, ps).
 Proof. vm_compute. repeat split; reflexivity. Qed.
+
+(* ---- the function format as text (Model/FuncFmt.v: docstring + signature; the parser = ReST scanner + parser, then the merge of
+   the signature into the documented parameters, Model/Merge.v).  [ftext k doc es] is the canonical docstring text at indent level
+   k with emit_separating_tab off (blank lines carry no tab).  For EVERY clean description and EVERY non-empty list of distinctly
+   named, documented and typed parameters, with type_annotations on or off and at every indent level: parsing the canonical text
+   together with the signature returns every parameter once, in order, with its own description, type and default -- an absent
+   default reads back as None (the documented normalisation of the function format). *)
+From CDD Require FuncFmt FuncFmtProofs.
+Theorem C02_function_text_parse_canonical : forall (ta : bool) (k : nat) (doc : str) (ps : list (str * FuncFmt.fparam)),
+  RestDocProofs.clean doc = true -> forallb FuncFmtProofs.fparam_ok ps = true -> NoDup (map fst ps) -> ps <> [] ->
+  FuncFmt.parse_function {| FuncFmt.f_doc := FuncFmtProofs.ftext k doc (map (fun p => (fst p, FuncFmt.entry_of (negb ta) (snd p))) ps);
+                            FuncFmt.f_args := FuncFmtProofs.sig_of ta ps |}
+  = (doc, FuncFmtProofs.expected ps).
+Proof. exact FuncFmtProofs.function_parse_canonical. Qed.
+Print Assumptions C02_function_text_parse_canonical.
+
+(* the emitter's side of it is a transcription (Model/RestDoc.v:emit_rest_indented_nt) compared with the code each run; that it
+   writes the canonical text is checked on every generated case, and here on one concrete function (partial: not proved for all) *)
+Example C02_function_text_example :
+  let doc := s2l "Acquire from the zoo" in
+  let ps := [(s2l "dataset_name", {| FuncFmt.fp_typ := Some (s2l "str"); FuncFmt.fp_doc := Some (s2l "name of dataset"); FuncFmt.fp_default := Some (s2l "'mnist'") |});
+             (s2l "as_numpy", {| FuncFmt.fp_typ := Some (s2l "Optional[bool]"); FuncFmt.fp_doc := Some (s2l "Convert to numpy ndarrays"); FuncFmt.fp_default := None |})] in
+  forallb FuncFmtProofs.fparam_ok ps = true
+  /\ FuncFmt.f_doc (FuncFmt.emit_function true doc ps) = FuncFmtProofs.ftext FuncFmt.INDENT doc (map (fun p => (fst p, FuncFmt.entry_of false (snd p))) ps)
+  /\ FuncFmt.f_doc (FuncFmt.emit_function false doc ps) = FuncFmtProofs.ftext FuncFmt.INDENT doc (map (fun p => (fst p, FuncFmt.entry_of true (snd p))) ps)
+  /\ FuncFmt.f_args (FuncFmt.emit_function true doc ps) = FuncFmtProofs.sig_of true ps
+  /\ FuncFmt.parse_function (FuncFmt.emit_function true doc ps) = (doc, FuncFmtProofs.expected ps).
+Proof. vm_compute. repeat split; reflexivity. Qed.
